@@ -7,6 +7,9 @@
 #![allow(static_mut_refs, non_snake_case, clippy::all)]
 #[path = "../../common/nd.rs"]
 pub mod nd;
+#[path = "../../wire/src/wire.rs"]
+#[allow(dead_code)]
+pub mod wire;
 use nd::*;
 
 use std::task::Poll;
@@ -252,6 +255,57 @@ pub mod argctx {
     }
 }
 
+// ------------------------------------------------------------------ family member 7
+pub mod shop {
+    use super::*;
+    use super::wire::{from_wire, to_wire, Mode, Wire};
+    /// sibling methods whose names differ only in underscore placement (variants CheckOut /
+    /// Checkout), sent through a SERIALISING stub: the generated request/response enums cross the
+    /// wire model in a positional (bincode-like) and in a name-tagged (JSON-like) convention.
+    #[tarpc::service]
+    pub trait Shop {
+        async fn check_out(a: u32, b: u32) -> u32;
+        async fn checkout(a: u32, b: u32) -> u32;
+    }
+    #[derive(Clone)]
+    pub struct Impl;
+    impl Shop for Impl {
+        async fn check_out(self, c: Context, a: u32, b: u32) -> u32 { seen(1, a as i64, b as i64, 0, &c); a.wrapping_mul(3).wrapping_sub(b) }
+        async fn checkout(self, c: Context, a: u32, b: u32) -> u32 { seen(2, a as i64, b as i64, 0, &c); b.wrapping_mul(5).wrapping_sub(a) }
+    }
+    /// The generated request and response enums survive a trip through the wire model: the same
+    /// variant with the same fields comes back (a tag shared by two variants would not).
+    pub fn run(mode: Mode) {
+        let (a, b) = (any_u32(), any_u32());
+        let which = any_bool();
+        let req = if which { ShopRequest::CheckOut { a, b } } else { ShopRequest::Checkout { a, b } };
+        let mut w = Wire::new(mode);
+        w.dynamic_names = true;
+        assert!(to_wire(&mut w, &req).is_ok());
+        let back: Result<ShopRequest, _> = from_wire(&mut w);
+        let ok = match (&back, which) {
+            (Ok(ShopRequest::CheckOut { a: x, b: y }), true) => *x == a && *y == b,
+            (Ok(ShopRequest::Checkout { a: x, b: y }), false) => *x == a && *y == b,
+            _ => false,
+        };
+        assert!(ok);
+        assert!(w.exhausted());
+        let resp = if which { ShopResponse::CheckOut(a) } else { ShopResponse::Checkout(b) };
+        let mut w = Wire::new(mode);
+        w.dynamic_names = true;
+        assert!(to_wire(&mut w, &resp).is_ok());
+        let back: Result<ShopResponse, _> = from_wire(&mut w);
+        let ok = match (&back, which) {
+            (Ok(ShopResponse::CheckOut(v)), true) => *v == a,
+            (Ok(ShopResponse::Checkout(v)), false) => *v == b,
+            _ => false,
+        };
+        assert!(ok);
+        witness!(which, "check_out");
+        witness!(!which, "checkout");
+    }
+}
+
 #[cfg(feature = "neg_new")]
 pub mod neg_new {
     #[tarpc::service]
@@ -382,6 +436,8 @@ harnesses! {
         assert!(name_is(RegistryRequest::X2 { x }.name(), "Registry.x2"));
         std::mem::forget(client);
     }
+    fn glue_serde_tags_varint() [unwind 20] { shop::run(wire::Mode::Varint) }
+    fn glue_serde_tags_json() [unwind 20] { shop::run(wire::Mode::Json) }
     fn glue_ctx_arg() [unwind 12] {
         #[cfg(feature = "arg_ctx")]
         argctx::run();
